@@ -28,7 +28,7 @@ try:
         res[p] = r.returncode
         print(f'== {p}: exit={r.returncode}')
         for l in lines[:12]:
-            print('   ', l[:300])
+            print('   ', l[:900])
 finally:
     if inplace:
         subprocess.check_call(['git', '-C', '/repo', 'checkout', '--', '.'])
